@@ -15,6 +15,7 @@ import os
 import random
 import sys
 import threading
+import time
 
 from vf import sched, tlc, tlaval
 
@@ -121,8 +122,10 @@ def cold_preemption(rep, quick, rng):
                     def body():
                         st['b'] = outcome(lambda: eng(b))
                     th = threading.Thread(target=body)
+                    th.daemon = True
                     th.start()
-                    th.join()
+                    th.join(3.0)      # (an engine that serialises its parses keeps the second one waiting: not an interleaving then)
+                    st['th'] = th
                     sys.settrace(tracer)
             return local
 
@@ -135,6 +138,12 @@ def cold_preemption(rep, quick, rng):
             ra = outcome(lambda: eng(a))
         finally:
             sys.settrace(None)
+        if st.get('th') is not None and st['th'].is_alive():
+            st['th'].join(5.0)
+            if st['th'].is_alive():
+                st['b'] = ('does-not-return',)
+            else:
+                st['serialised'] = True
         return ra, st['b'], st['n']
     for a, b in COLD_PAIRS[:(2 if quick else len(COLD_PAIRS))]:
         for x, y in ((a, b), (b, a)):
@@ -148,6 +157,10 @@ def cold_preemption(rep, quick, rng):
                 ra, rb, _ = parse_with_preemption(x, y, k)
                 ran += 1
                 rep.evaluations += 2
+                if rb == ('does-not-return',):
+                    rep.violation('C01/cold-preemption/does-not-return', 'cold engine: a parse of %r started while the parse of %r was at library line %d did not come back '
+                                  '(5 s after the first one had finished)' % (y, x, k), {'mode': 'cold', 'first': x, 'second': y, 'line': k})
+                    return ran
                 for t, got in ((x, ra), (y, rb)):
                     if got is not None and got != fresh(t):
                         rep.violation('C01/cold-preemption/%s' % fresh(t)[0],
@@ -172,7 +185,8 @@ def gated(gate):
 def run_schedule(engine, texts, schedule):
     """texts: dict p -> text. Force `schedule` (list of p) at Lexer.input/token granularity."""
     from ply import lex
-    s = sched.Scheduler(schedule)
+    s = sched.Scheduler(schedule, timeout=2.0)
+    s.release_on_stall = True
     with sched.Patch() as p:
         p.wrap(lex.Lexer, 'input', gated(s.gate))
         p.wrap(lex.Lexer, 'token', gated(s.gate))
@@ -245,6 +259,8 @@ def run(rep, tier, seed, keep=False):
         engine = yaql.YaqlFactory().create()
         nsched = 0
         ntriv = 0
+        infeasible = [0]
+        hung = [0]
 
         def replay_states(states, label, engine, cap=None, force=None, reset=False):
             nonlocal nsched, ntriv
@@ -254,6 +270,8 @@ def run(rep, tier, seed, keep=False):
             if cap and len(todo) > cap:
                 todo = rng.sample(todo, cap)
             for st in todo:
+                if hung[0] >= 3 or infeasible[0] >= 25:
+                    break       # parses hang / the engine serialises its parses: forcing further interleavings adds nothing
                 text = _vals(st['text'])
                 mts = [gtexts[i - 1] for i in text]
                 texts = {p + 1: (force and force(mt)) or concretise(mt, rng) for p, mt in enumerate(mts)}
@@ -268,9 +286,18 @@ def run(rep, tier, seed, keep=False):
                     ntriv += 1
                 if nsched % 499 == 1:
                     rep.sample({'texts': texts, 'schedule': schedule})
+                if s.infeasible:
+                    infeasible[0] += 1
                 for p, t in texts.items():
                     got = res.get(p)
-                    if got is None or got[0] != 'ok':
+                    if got is None:
+                        # the parse call neither returned nor raised (whether or not the forced order was realisable)
+                        rep.violation('C01/%s/does-not-return' % label, 'parse of %r started under schedule %s (with %r) did not come back within %.0f s' % (
+                            t if len(t) < 200 else t[:80] + '...', schedule, {k: (v if len(v) < 80 else v[:40] + '...') for k, v in texts.items()}, 6.0),
+                            {'texts': {k: (v if len(v) < 200 else v[:80] + '...') for k, v in texts.items()}, 'schedule': schedule, 'mode': 'schedule'})
+                        hung[0] += 1
+                        continue
+                    if got[0] != 'ok':
                         raise RuntimeError('scheduler failure %r on %r %r' % (got, texts, schedule))
                     exp = fresh(t)
                     if got[1] != exp:
@@ -303,7 +330,7 @@ def run(rep, tier, seed, keep=False):
         r = job(wd, gtexts, 3, False, False, invs, view=False, terminals=True)
         rep.tlc('EngineParse/G schedules of 3 parses', r)
         n3 = replay_states(terminals(r), 'schedule3', engine, cap=1500 if quick else 60000)
-        rep.extra['schedules_replayed'] = {'2 parses': n2, '3 parses': n3}
+        rep.extra['schedules_replayed'] = {'2 parses': n2, '3 parses': n3, 'not realisable (a thread blocked outside the gates)': infeasible[0]}
 
         # ---------------- G: sequential histories on one engine (incl. failing texts, same text twice)
         gtexts = MODEL_TEXTS
@@ -449,9 +476,15 @@ def run(rep, tier, seed, keep=False):
                             results.append((t, got))
                     ths = [threading.Thread(target=body, args=(k,)) for k in range(nthreads)]
                     for t in ths:
+                        t.daemon = True
                         t.start()
+                    deadline = time.time() + 60
                     for t in ths:
-                        t.join()
+                        t.join(max(0.1, deadline - time.time()))
+                    if any(t.is_alive() for t in ths):
+                        rep.violation('C01/free-running/does-not-return', 'free-running threads on one engine: %d of %d threads did not finish their parses within 60 s' % (
+                            sum(1 for t in ths if t.is_alive()), len(ths)), {'mode': 'free', 'threads': nthreads})
+                        break
                     for t, got in results:
                         total += 1
                         if got != fresh(t):
